@@ -200,6 +200,10 @@ dt_strft(char *restrict buf, size_t bsz, const char *fmt, struct dt_t_s that)
 			*bp++ = *fp_sav;
 		} else {
 			bp += __strft_card(bp, eo - bp, spec, &d, that);
+			if (UNLIKELY(bp > eo)) {
+				/* field was cut short */
+				bp = eo;
+			}
 		}
 	}
 	if (bp < buf + bsz) {
